@@ -182,11 +182,20 @@ def do_shared(case):
         fresh.append(stats(c2, j % 2 == 1))
     # parameter sets that give ONE-epoch models (every epoch starts at time 0) through a second shared Inference
     inf1 = pg.Inference(bounds={'N0': (0.1, 10)}, coal=coal, loss=lambda c, o: 0.0, x0={'N0': 1.0}, parallelize=False, pbar=False, cache=True)
+    # ... with the probability of a mutational configuration as the FIRST thing asked of the object on every other parameter set (it reads
+    # the rate matrix of the shared state space: the state space must first be re-pointed to the object's own epoch) and as the last otherwise
+    cfg = [1] + [0] * (case['n'] - 2)
+    def stats1(c, early_first, mc_first):
+        out = [float(c.sfs.get_mutation_config(cfg, 1.0))] if mc_first else []
+        out += stats(c, early_first)
+        if not mc_first:
+            out.append(float(c.sfs.get_mutation_config(cfg, 1.0)))
+        return out
     for j, a in enumerate(ps):
         c1 = inf1.get_coal(N0=a)
-        shared.append(stats(c1, j % 2 == 0))
+        shared.append(stats1(c1, j % 2 == 0, j % 2 == 1))
         c2 = coal(a)
-        fresh.append(stats(c2, j % 2 == 0))
+        fresh.append(stats1(c2, j % 2 == 0, j % 2 == 1))
     # parameter sets that change the coalescent MODEL (Beta alpha) while the demography - hence every epoch - stays the same
     mkb = lambda alpha: pg.Coalescent(n=case['n'], model=pg.BetaCoalescent(alpha=alpha), demography=pg.Demography(pop_sizes={'pop_0': {0: 2.0, 0.5: 1.0}}), parallelize=False)
     infb = pg.Inference(bounds={'alpha': (1.05, 1.95)}, coal=mkb, loss=lambda c, o: 0.0, x0={'alpha': 1.5}, parallelize=False, pbar=False, cache=True)
